@@ -51,7 +51,7 @@ int main (void)
     if (n < 6) continue;
     arg_t a; a.bs = bs; a.dseed = dseed; a.mode = mode; a.base = base; a.g = g;
     a.out = (unsigned char **) calloc ((size_t) P, sizeof (unsigned char *));
-    int mem0 = sc_memory_status (-1);
+    int mem0 = (sc_memory_status (-1) + sc_memory_status (sc_package_id));
     simmpi_opts o; simmpi_report rep;
     simmpi_opts_default (&o);
     o.nranks = P; o.seed = seed; o.adversary = adv; o.trace_path = tpath;
@@ -68,7 +68,7 @@ int main (void)
     FILE *f = fopen (tpath, "r");
     if (f) { char buf[65536]; size_t k; while ((k = fread (buf, 1, sizeof buf, f)) > 0) fwrite (buf, 1, k, stdout); fclose (f); }
     printf ("TRACE-END\n");
-    printf ("END %d mem=%d\n", run, sc_memory_status (-1) - mem0);
+    printf ("END %d mem=%d\n", run, (sc_memory_status (-1) + sc_memory_status (sc_package_id)) - mem0);
     simmpi_report_free (&rep);
     free (a.out);
     ++run;
